@@ -58,4 +58,6 @@ def handle (op : String) (args : List String) : Option String :=
     pure ("ok " ++ encStr (getParentPath s))
   | _, _ => none
 
+def handleIO (op : String) (args : List String) : IO (Option String) := pure (handle op args)
+
 end OnosVerif.Path
